@@ -195,6 +195,21 @@ class DictionaryDataBase(DataBase):
                     return True
             return False
 
+    def remove_by_id(self, index: int) -> bool:
+        """
+        Remove the data stored under a given index, returns a boolean stating if removal has been succesful.
+
+        Parameters
+        ----------
+        index : int
+            Index of the data to be removed.
+        """
+        with self._lock:
+            if index in self.database:
+                del self.database[index]
+                return True
+            return False
+
     def all(self) -> tuple:
         """
         Get all data from the database.
